@@ -315,8 +315,12 @@ func main() {
 	}
 	header := "From Coq Require Import List NArith ZArith.\nFrom Verif Require Import Common.Rose C21.Model C20.Model.\nImport ListNotations.\nOpen Scope Z_scope.\n" +
 		"Definition macros0 (n : N) : option (nat * (list tree -> list tree)) :=\n  " + strings.Join(tbl, "\n  else ") + "\n  else None."
-	cw := vh.NewCases(a, header, "case", "mismatches macros0", 50)
-	wd := vh.NewWatchdog(rep, 20*time.Second)
+	perShard := 50
+	if a.Thorough() {
+		perShard = 110
+	}
+	cw := vh.NewCases(a, header, "case", "mismatches macros0", perShard)
+	wd := vh.NewWatchdog(rep, 120*time.Second) // generous: the shared machine reaches load 100+; a real hang is still reported
 
 	idx := 0
 	runCase := func(src, stream, knownKey string, hasMacros bool) {
@@ -473,7 +477,8 @@ func main() {
 	}
 	n := 150
 	if a.Thorough() {
-		n = 6000
+		// 2 x 6000 programs would be 240 case files of 50; 2 x 1600 in files of 110: ~29 files
+		n = 1600
 	}
 	if a.N > 0 {
 		n = a.N
